@@ -113,7 +113,7 @@ def check(tier, seed):
         W = []
         for mod in (c01, c02, c03, c04, c05, c14, c16, c17, c19):
             ws = mod.witnesses(tier, seed) if mod is not c03 else mod.witnesses(tier, seed, 'gnu++17')
-            ws = [w for w in ws if not (w.params or {}).get('or_group')]      # alternatives are judged as groups in their own property
+            ws = [w for w in ws if not (w.params or {}).get('or_group') and not in_open_finding_family(w)]      # alternatives are judged as groups in their own property
             W += ws[seed % step::step]
         W += map_witnesses(tier)
         R.run_all(group_sort(W), cfgs, chunk=80)
